@@ -183,6 +183,16 @@ impl Campaign for C07c {
         let c = g.usize(1, 4);
         let closer = g.chance(1, 2);
         sc.receivers = gen_receivers(&mut g, c, t, true, closer);
+        // wake-ups also race with unblock (half of the runs)
+        if g.chance(1, 2) {
+            let u = g.usize(1, 3);
+            let mut times: Vec<u64> = (0..u).map(|_| *g.pick(&offsets(t))).collect();
+            times.sort();
+            for tm in times {
+                sc.driver.push(DriverStep::SleepUntil(tm));
+                sc.driver.push(DriverStep::Unblock(1));
+            }
+        }
         sc.note = format!("C07 index {} T={}ns", index, t);
         sc
     }
@@ -214,12 +224,6 @@ impl Campaign for C07c {
                     main.t, undelivered, blocked, describe_blocked(main)
                 ),
             });
-        }
-        // a receiver that loops until unblocked must eventually get everything
-        let has_closer = sc.receivers.iter().any(|r| r.calls.contains(&RecvCall::RecvLoop));
-        if all_sent && has_closer && !undelivered.is_empty() && blocked == 0 {
-            // the closer is not blocked in a receive: it is stuck elsewhere (not this property's clause)
-            v.inconclusive = Some(format!("closer receiver not in a receive call at quiescence: {}", describe_blocked(main)));
         }
         let woken = out.obs.events.iter().any(|e| matches!(e, Ev::RecvCall { res: RecvRes::Got(_), seq0, seq1, .. } if seq1 > &(seq0 + 8)));
         v.nontrivial = woken && sc.receivers.len() >= 2;
